@@ -545,7 +545,11 @@ func c07Docs(ctx *Ctx, r *Rng) {
 // c07UrlMacros: macros whose bodies are CHILDREN of a URL — whole method blocks with their own Path directive, a Path
 // at URL level — pasted under two or three consecutive URLs: the document equals the one with every PASTE written out
 // (the copies keep the coordinates of the macro's text; "one Path per context" must go by the context, F44).
-func c07UrlMacros(ctx *Ctx) {
+// urlMacroDocs: (document with the macro, document with every PASTE written out, number of URLs, body number)
+func urlMacroDocs() (out []struct {
+	M, I string
+	N, B int
+}) {
 	bodies := []string{
 		"GET\n  Path\n  {\"id\": 1}\n  200 any\n",
 		"GET\n  200 any\n",
@@ -563,7 +567,6 @@ func c07UrlMacros(ctx *Ctx) {
 		}
 		return b.String()
 	}
-	cases := 0
 	for bi, body := range bodies {
 		for n := 1; n <= 3; n++ {
 			for _, between := range []string{"", "TYPE @t\n{}\n", "GET /other/{id}\n  Path\n  {\"id\": 9}\n  200 any\n"} {
@@ -586,28 +589,39 @@ func c07UrlMacros(ctx *Ctx) {
 					if !defFirst {
 						docM.WriteString(def)
 					}
-					rm := RunProject(SingleFile([]byte(docM.String())), false)
-					ri := RunProject(SingleFile([]byte(docI.String())), false)
-					cases++
-					ctx.Cov.Count([]byte(docM.String()), n >= 2)
-					ctx.Cov.Hit(fmt.Sprintf("macro of URL children #%d pasted under %d URLs", bi, n))
-					if rm.Panic != "" || ri.Panic != "" {
-						continue
-					}
-					in := projectInput(SingleFile([]byte(docM.String())))
-					in["op"] = "inline"
-					in["inlined"] = docI.String()
-					switch {
-					case ri.Accepted() != rm.Accepted():
-						ctx.Violate(Violation{Kind: "wrong-output", Site: "macros", What: fmt.Sprintf("a macro of URL children pasted under %d URLs: with every PASTE written out: %s; with the macro: %s", n, ri.Verdict(), rm.Verdict()), Input: in,
-							Observed: rm.Verdict(), Expected: ri.Verdict(), Signature: "url-macro-verdict"})
-					case ri.Accepted() && !bytes.Equal(rm.JSON, ri.JSON):
-						ctx.Violate(Violation{Kind: "wrong-output", Site: "macros", What: "a macro of URL children: the document with the macro and the one with every PASTE written out have different catalogs: " + firstDiff(ri.JSON, rm.JSON), Input: in,
-							Signature: "url-macro-catalog"})
-					}
+					out = append(out, struct {
+						M, I string
+						N, B int
+					}{docM.String(), docI.String(), n, bi})
 				}
 			}
 		}
 	}
-	ctx.Cov.Component("macros of URL children (method blocks with their own Path, URL-level Path, JSON-RPC methods) pasted under 1-3 URLs vs the hand-inlined document", cases, len(ctx.Violations), "")
+	return out
+}
+
+func c07UrlMacros(ctx *Ctx) {
+	cases := 0
+	for _, d := range urlMacroDocs() {
+		rm := RunProject(SingleFile([]byte(d.M)), false)
+		ri := RunProject(SingleFile([]byte(d.I)), false)
+		cases++
+		ctx.Cov.Count([]byte(d.M), d.N >= 2)
+		ctx.Cov.Hit(fmt.Sprintf("macro of URL children #%d pasted under %d URLs", d.B, d.N))
+		if rm.Panic != "" || ri.Panic != "" {
+			continue
+		}
+		in := projectInput(SingleFile([]byte(d.M)))
+		in["op"] = "inline"
+		in["inlined"] = d.I
+		switch {
+		case ri.Accepted() != rm.Accepted():
+			ctx.Violate(Violation{Kind: "wrong-output", Site: "macros", What: fmt.Sprintf("a macro of URL children pasted under %d URLs: with every PASTE written out: %s; with the macro: %s", d.N, ri.Verdict(), rm.Verdict()), Input: in,
+				Observed: rm.Verdict(), Expected: ri.Verdict(), Signature: "url-macro-verdict"})
+		case ri.Accepted() && !bytes.Equal(rm.JSON, ri.JSON):
+			ctx.Violate(Violation{Kind: "wrong-output", Site: "macros", What: "a macro of URL children: the document with the macro and the one with every PASTE written out have different catalogs: " + firstDiff(ri.JSON, rm.JSON), Input: in,
+				Signature: "url-macro-catalog"})
+		}
+	}
+	ctx.Cov.Component("macros of URL children (method blocks with their own Path, URL-level Path) pasted under 1-3 URLs vs the hand-inlined document", cases, len(ctx.Violations), "")
 }
